@@ -162,3 +162,24 @@ Definition cavities_ok (super : list pt -> list pt) (pts : list pt) : Prop :=
   forall k, (k < length pts)%nat ->
     star_shaped (pts ++ super pts) (bw_state super pts k) k /\
     continues_behind (pts ++ super pts) (bw_state super pts k) k (old_at (length pts) k).
+
+(* executable versions of the two cavity hypotheses, evaluated along a run of the model (used by
+   Check/C20.v on every model-compared case and by the non-vacuity example) *)
+Definition edge_eqb (e f : edge) : bool := ((fst e =? fst f) && (snd e =? snd f))%nat.
+Definition star_shapedb (P : list pt) (T : list tri) (i : nat) : bool :=
+  forallb (fun e => Qltb (orient (nth (fst e) P pzero) (nth (snd e) P pzero) (nth i P pzero)) 0)
+          (cavity_boundary P T i).
+Definition continues_behindb (P : list pt) (T : list tri) (i : nat) (olds : list nat) : bool :=
+  forallb (fun e =>
+    existsb (fun g => existsb (edge_eqb (snd e, fst e)) (edges g)) T ||
+    forallb (fun j =>
+      negb (Qltb 0 (orient (nth (fst e) P pzero) (nth (snd e) P pzero) (nth j P pzero)))) olds)
+    (cavity_boundary P T i).
+Definition olds_at (n k : nat) : list nat := seq 0 k ++ [n; S n; S (S n)].
+Fixpoint cav_run (P : list pt) (n : nat) (ks : list nat) (T : list tri) : bool :=
+  match ks with
+  | [] => true
+  | k :: ks' => star_shapedb P T k && continues_behindb P T k (olds_at n k) && cav_run P n ks' (insert P T k)
+  end.
+Definition cavities_okb (super : list pt -> list pt) (pts : list pt) : bool :=
+  cav_run (pts ++ super pts) (length pts) (seq 0 (length pts)) [super_tri (length pts)].
